@@ -65,3 +65,50 @@ Print Assumptions C23_no_lost_committed_write.
 Theorem C23_oracle_accepts_model : forall i, oracle i (model_obs i) = true.
 Proof. exact oracle_accepts_model. Qed.
 Print Assumptions C23_oracle_accepts_model.
+
+(* ---- the whole working set: HEAD / STAGED / WORKING with DOLT_ADD and DOLT_COMMIT ---- *)
+From Dolt Require Import C23.Staged C23.StagedProofs.
+
+Theorem C23_do_commit3_refines_spec :
+  forall U k P B S' W',
+    snd (do_commit3 U k P B S' W') = snd (fst (spec_commit3 U k P B S' W')) /\
+    (snd (do_commit3 U k P B S' W') = false -> fst (do_commit3 U k P B S' W') = P) /\
+    (snd (spec_commit3 U k P B S' W') = true ->
+     same_roots U (fst (do_commit3 U k P B S' W')) (fst (fst (spec_commit3 U k P B S' W')))).
+Proof. exact do_commit3_refines_spec. Qed.
+Print Assumptions C23_do_commit3_refines_spec.
+
+Theorem C23_no_lost_head_write :
+  forall U sched w l1 ei l2 ej l3 k col,
+    log3 U sched w = l1 ++ ei :: l2 ++ ej :: l3 -> Forall (clean3 U) (log3 U sched w) ->
+    e3_ok ei = true -> e3_kind ei = KDolt ->
+    tcell U (committed U ei) k col <> tcell U (r_head (e3_start ei)) k col ->
+    tcell U (r_head (e3_after ei)) k col = tcell U (committed U ei) k col /\
+    (tcell U (r_head (e3_after ej)) k col <> tcell U (committed U ei) k col ->
+     exists la e' lb, l2 ++ [ej] = la ++ e' :: lb /\ e3_ok e' = true /\ e3_kind e' = KDolt
+                      /\ tcell U (committed U e') k col <> tcell U (r_head (e3_start e')) k col
+                      /\ tcell U (r_head (e3_start e')) k col = tcell U (committed U ei) k col).
+Proof. exact no_lost_head_write. Qed.
+Print Assumptions C23_no_lost_head_write.
+
+Theorem C23_staged_moves_only_where_staged :
+  forall U sched w e k col,
+    In e (log3 U sched w) -> clean3 U e -> e3_kind e = KPlain ->
+    tcell U (r_staged (e3_after e)) k col <> tcell U (r_staged (e3_before e)) k col ->
+    e3_ok e = true /\ tcell U (e3_S e) k col <> tcell U (r_staged (e3_start e)) k col
+    /\ tcell U (r_staged (e3_start e)) k col = tcell U (r_staged (e3_before e)) k col.
+Proof. exact staged_moves_only_where_staged. Qed.
+Print Assumptions C23_staged_moves_only_where_staged.
+
+Theorem C23_plain_commit_keeps_head :
+  forall U sched w e,
+    In e (log3 U sched w) -> clean3 U e -> e3_kind e = KPlain ->
+    same_table U (r_head (e3_after e)) (r_head (e3_before e)).
+Proof. exact plain_commit_keeps_head. Qed.
+Print Assumptions C23_plain_commit_keeps_head.
+
+Theorem C23_failed_commit3_no_trace :
+  forall U sched w e,
+    In e (log3 U sched w) -> e3_ok e = false -> e3_after e = e3_before e.
+Proof. exact failed_commit3_no_trace. Qed.
+Print Assumptions C23_failed_commit3_no_trace.
